@@ -156,6 +156,10 @@ class Real:
             out_dir, foreign = None, True
         if out_dir == "@symlink-out":
             out_dir, symlink_out = None, True
+        if out_dir == "@absolute-out":
+            # an absolute output directory outside the repository, already existing
+            out_dir = os.path.join(s.dir, "abs-out", "mr")
+            os.makedirs(out_dir)
         self.s = s
         self.r = sc.Repo(s, "r", TARGETS, commands={"a": {"build": "x"}, "b": {"build": "x"}},
                          cfg_extra={"out_dir": out_dir} if out_dir else None,
@@ -962,6 +966,41 @@ def ignored_paths_task(variant):
         s.cleanup()
 
 
+def dir_becomes_file_task(variant):
+    """A tracked file below a subdirectory is deleted and recorded as pending (absent); later the
+    directory itself (or its parent) is replaced by a regular file of the same name. The deleted path is
+    still absent, so it still equals what was recorded and is not a change; the new file is."""
+    s = sc.Scratch("d2f")
+    try:
+        real = Real(s)
+        r = real.r
+        r.write("a/sub/deep/f.txt", "tracked\n")
+        r.commit("nested file")
+        v = []
+        if r.mr("checkpoint", "update").code != 0:
+            raise common.EngineError("checkpoint update failed")
+        os.unlink(r.path("a/sub/deep/f.txt"))
+        if r.mr("checkpoint", "update", "-p").code != 0:
+            raise common.EngineError("update -p failed")
+        import shutil as _sh
+        which = "a/sub/deep" if variant == "parent" else "a/sub"
+        _sh.rmtree(r.path(which))
+        r.write(which, "now a plain file\n")
+        doc = r.mr("analyze", "--changes").json()
+        got = None if doc is None else [c["path"] for c in doc.get("changes") or []]
+        if got != [which]:
+            v.append(("change-set-wrong", "a/sub/deep/f.txt deleted and recorded as pending, then %s replaced by a regular file: reported %s, expected %s" % (which, got, [which])))
+        t = None if doc is None else doc.get("targets")
+        return {"violations": [{"sig": sig, "detail": d, "rank": 67, "case": {"d2f_case": variant}} for sig, d in v],
+                "evals": 1, "obs": None, "nontrivial": 1}
+    except common.EngineError as e:
+        return {"engine_error": "%s (directory becomes file, %s)" % (e, variant)}
+    except Exception:
+        return {"engine_error": "directory becomes file %s: %s" % (variant, traceback.format_exc()[-1200:])}
+    finally:
+        s.cleanup()
+
+
 def outdir_sibling_task(variant):
     """A target whose name merely BEGINS with the name of the output directory (`monorail-outpost` next to
     the default `monorail-out`; `outer` next to a configured `out`) is a target like any other: its dirty
@@ -1198,6 +1237,13 @@ def bfs(prop, tier, depth, wall_cap=None):
             agg["distinct_nontrivial"] += r["nontrivial"]
             agg["violations"].extend(r["violations"])
         agg["update_pair_cases"] = len(tasks)
+    if prop in ("C02", "C07"):
+        for r in common.pmap(dir_becomes_file_task, ["parent", "grandparent"]):
+            if "engine_error" in r:
+                raise common.EngineError(r["engine_error"])
+            agg["evaluations"] += r["evals"]
+            agg["violations"].extend(r["violations"])
+        agg["directory_becomes_file_cases"] = 2
     if prop == "C02":
         for r in common.pmap(ignored_paths_task, ["worktree", "committed"]):
             if "engine_error" in r:
@@ -1244,6 +1290,12 @@ def bfs(prop, tier, depth, wall_cap=None):
             agg["evaluations"] += r["evals"]
             agg["violations"].extend(r["violations"])
         agg["symlinked_out_dir_cases"] = len(seqs)
+        for r in common.pmap(state_task, [(prop, tier, ops, "@absolute-out") for ops in seqs]):
+            if "engine_error" in r:
+                raise common.EngineError(r["engine_error"])
+            agg["evaluations"] += r["evals"]
+            agg["violations"].extend(r["violations"])
+        agg["absolute_out_dir_cases"] = len(seqs)
         # the same invariants with surroundings the model does not know about: records of earlier
         # successful / failed runs on disk, a listener attached
         sur = [[["RUN"]], [["RUN"], ["CPU"]], [["CPUP"], ["RUNF"], ["W", "a/f.txt", "2"]], [["RUN"], ["CPU"], ["RUNF"], ["CPD"]],
@@ -1323,8 +1375,9 @@ def run(prop, tier):
 
 def replay(prop, path):
     body = json.load(open(path))
-    if "unborn_case" in body["case"] or "ign_case" in body["case"] or "osib_case" in body["case"]:
-        r1 = unborn_task(body["case"]["unborn_case"]) if "unborn_case" in body["case"] else ignored_paths_task(body["case"]["ign_case"]) if "ign_case" in body["case"] else outdir_sibling_task(body["case"]["osib_case"])
+    if "unborn_case" in body["case"] or "ign_case" in body["case"] or "osib_case" in body["case"] or "d2f_case" in body["case"]:
+        cs = body["case"]
+        r1 = unborn_task(cs["unborn_case"]) if "unborn_case" in cs else ignored_paths_task(cs["ign_case"]) if "ign_case" in cs else outdir_sibling_task(cs["osib_case"]) if "osib_case" in cs else dir_becomes_file_task(cs["d2f_case"])
         if "engine_error" in r1:
             print("ENGINE:", r1["engine_error"])
             return 2
